@@ -2,8 +2,7 @@
 C08 driver: replays a twin-reader history on the model and evaluates the Spec predicates on the observed records.
 -/
 import Otel.Base.Wire
-import Otel.C08.Model
-import Otel.C08.Spec
+import Otel.C08.Oracle
 open Otel Otel.Wire Otel.C02 Otel.C08
 
 namespace Otel.C08.Drv
@@ -49,56 +48,27 @@ def renderPV : PV → String
   | .num v => s!"{v}"
   | .hist c s cs => s!"{c}/{s}/" ++ ".".intercalate (cs.map toString)
 
-def renderDT (dt : DT) (delta : Bool) : String :=
-  let t := if delta then "d" else "c"
-  match dt with
-  | .sum m => s!"S{t}{if m then "m" else "n"}"
-  | .gauge => "G"
-  | .hist => s!"H{t}"
-  | .expo => s!"X{t}"
+def renderCls : Option (Option Nat) → String
+  | some none => "c"
+  | some (some k) => s!"w{k}"
+  | none => "?"
 
-def cls (t : Nat) : String := if t == 0 then "c" else s!"w{t - 1}"
+def renderFlag : Option Bool → String
+  | some true => "1"
+  | some false => "0"
+  | none => "-"
 
-def sortPts (pts : List (Pt PV)) : List (Pt PV) :=
-  (sortByAttr (pts.map fun p => (p.attr, p))).map (·.2)
+def renderMStream (delta : Bool) (st : MStream) : String :=
+  let iv := st.iv
+  let ps := ",".intercalate (st.pts.map fun q => s!"{q.attr}={renderPV q.val}")
+  s!"{st.inst}:{renderDT st.dt delta}:{renderCls iv.startCycle}.{renderCls iv.timeCycle}.{renderFlag iv.p}.{renderFlag iv.f}.{if iv.le then "1" else "0"}.{if iv.uniform then "1" else "0"}:{ps}"
 
-/-- (reader is delta, instrument) ↦ (cycle, start, time) of the most recent report -/
-abbrev PrevMap := List ((Bool × Nat) × (Nat × Nat × Nat))
-
+/-- prints exactly the flagged records of Oracle.lean (`flagRecs`), whose structured form is `modelORecs` -/
 def renderRecs (recs : List (Nat × Bool × List Stream)) : List String :=
-  (recs.foldl (fun (acc : PrevMap × List String) rc =>
-    let (cycle, delta, streams) := rc
-    let (prev, strs) := streams.foldl (fun (a : PrevMap × List String) st =>
-      let pts := sortPts st.pts
-      match pts.head? with
-      | none => a
-      | some p0 =>
-        let pv := a.1.lookup (delta, st.inst)
-        let f := match pv with | some (_, s, _) => if s == p0.start then "1" else "0" | none => "-"
-        let p := match pv with
-          | some (c, _, t) => if c + 1 == cycle then (if t == p0.start then "1" else "0") else "-"
-          | none => "-"
-        let le := if p0.start ≤ p0.time then "1" else "0"
-        let uni := if pts.all (fun q => q.start == p0.start && q.time == p0.time) then "1" else "0"
-        let ps := ",".intercalate (pts.map fun q => s!"{q.attr}={renderPV q.val}")
-        let s := s!"{st.inst}:{renderDT st.dt delta}:{cls p0.start}.{cls p0.time}.{p}.{f}.{le}.{uni}:{ps}"
-        (((delta, st.inst), (cycle, p0.start, p0.time)) :: a.1, a.2 ++ [s])) (acc.1, [])
-    (prev, acc.2 ++ [";".intercalate (s!"{cycle}:{if delta then "D" else "C"}" :: strs)])) ([], [])).2
+  (flagRecs [] recs).map fun rc =>
+    ";".intercalate (s!"{rc.1}:{if rc.2.1 then "D" else "C"}" :: rc.2.2.map (renderMStream rc.2.1))
 
 /-! ### parsing the observed records -/
-
-structure OStream where
-  inst : Nat
-  ty : String
-  iv : Spec.Interval
-  pts : Spec.Report
-deriving Repr
-
-structure ORec where
-  cycle : Nat
-  delta : Bool
-  streams : List OStream
-deriving Repr
 
 def parseCls (s : String) : Option (Option Nat) :=
   if s == "c" then some none
@@ -143,68 +113,6 @@ def parseORec (s : String) : Option ORec :=
     | _ => none
   | [] => none
 
-/-! ### the oracle -/
-
-/-- per cycle: the callbacks in execution order and the observations they replay, and the synchronous
-measurements made since the previous cycle -/
-structure CycleIn where
-  callbacks : List (List Nat)
-  cur : List (Nat × Attr × Int)
-  recorded : List (Nat × Attr × Int)
-
-def cycleInputs (is : List InstCfg) (slots : List (List Nat)) (ops : List Op) : List CycleIn :=
-  (ops.foldl (fun (acc : Sys × List (Nat × Attr × Int) × List CycleIn) op =>
-    let (s, recd, out) := acc
-    match op with
-    | .col => (s.step op, [], out ++ [{ callbacks := s.callbacks, cur := s.cur, recorded := recd }])
-    | .record j a v => (s.step op, recd ++ [(j, a, v)], out)
-    | _ => (s.step op, recd, out)) (Sys.init is slots, [], [])).2.2
-
-/-- observations that reach instrument `j` in a cycle: for each callback that may observe `j`, the cycle's
-observations of `j`, in order -/
-def effObs (c : CycleIn) (j : Nat) : List (Nat × Int) :=
-  c.callbacks.flatMap fun cb =>
-    if cb.contains j then (c.cur.filter (·.1 == j)).map (·.2) else []
-
-def reportOf (recs : List ORec) (k : Nat) (delta : Bool) (j : Nat) : Spec.Report :=
-  match recs.find? (fun r => r.cycle == k && r.delta == delta) with
-  | some r => match r.streams.find? (·.inst == j) with
-    | some s => s.pts
-    | none => []
-  | none => []
-
-def oracle (is : List InstCfg) (slots : List (List Nat)) (ops : List Op) (recs : List ORec) : Bool :=
-  let cyc := cycleInputs is slots ops
-  let n := cyc.length
-  -- intervals
-  (recs.all fun r => r.streams.all fun s =>
-    if r.delta then Spec.deltaIntervalOK r.cycle s.iv else Spec.cumulativeIntervalOK r.cycle s.iv) &&
-  recs.length == 2 * n &&
-  (List.range is.length).all fun j =>
-    match is[j]? with
-    | none => false
-    | some ic =>
-      let ds := (List.range n).map fun k => reportOf recs k true j
-      let cs := (List.range n).map fun k => reportOf recs k false j
-      let eff := cyc.map fun c => effObs c j
-      let recd := cyc.map fun c => (c.recorded.filter (·.1 == j)).map (·.2)
-      match mkAgg ic with
-      | .sum _ => Spec.twinAgree ds cs
-      | .hist _ => Spec.twinAgree ds cs
-      | .expo _ => Spec.twinAgree ds cs
-      | .psum _ =>
-        (List.range n).all fun k =>
-          Spec.asyncCumOK (eff.getD k []) (cs.getD k []) &&
-          Spec.asyncDeltaOK (if k = 0 then [] else eff.getD (k - 1) []) (eff.getD k []) (ds.getD k [])
-      | .plv _ =>
-        (List.range n).all fun k =>
-          Spec.gaugeCycleOK (eff.getD k []) (cs.getD k []) && Spec.gaugeCycleOK (eff.getD k []) (ds.getD k [])
-      | .lv _ =>
-        (List.range n).all fun k =>
-          Spec.gaugeCycleOK (recd.getD k []) (ds.getD k []) &&
-          Spec.gaugeCumOK ((recd.take (k + 1)).flatten) (cs.getD k [])
-      | .off => ds.all (·.isEmpty) && cs.all (·.isEmpty)
-
 def tagIf (b : Bool) (t : String) : List String := if b then [t] else []
 
 def stepLine (_ : Unit) (toks : List String) : Unit × Option Verdict :=
@@ -235,7 +143,9 @@ def stepLine (_ : Unit) (toks : List String) : Unit × Option Verdict :=
           tagIf (aggs.any fun g => match g with | .off => true | _ => false) "drop-or-incompatible" ++
           tagIf (ops.any fun o => match o with | .unreg _ => true | _ => false) "unregister" ++
           tagIf (model.cycle > 2) "multi-cycle"
-        pure { agree := mstr == obs, spec := if spec then "ok" else "FAIL",
+        -- `agree` also ties the printed form to the structured form the theorems are about: when the implementation's
+        -- line equals the model's, what was parsed from it must be `modelORecs` of the model's records
+        pure { agree := mstr == obs && recs == modelORecs model.recs, spec := if spec then "ok" else "FAIL",
                nontrivial := model.recs.any (fun rc => !rc.2.2.isEmpty) && model.cycle > 1,
                branches := if tags.isEmpty then "-" else ",".intercalate tags,
                model := " ".intercalate mstr }
